@@ -294,5 +294,26 @@ impl ExponentialCone<F> {
 //@end
 }
 
+impl NonnegativeCone<F> {
+//@fn file=src/solver/core/cones/nonnegativecone.rs in="Cone<T> for NonnegativeCone<T>" name=margins rules=R1,R2,R24,R5 ret=r params=z,pd
+//@contract
+    ensures
+        // C15 / C07: the margin of a point of the nonnegative cone is its smallest entry; the second figure is the sum of the positive parts
+        final(z)@ == old(z)@, r.0 == vm_minimum(old(z)@), r.1 == fold_pos(old(z)@, old(z)@.len() as int),
+//@iter 1
+it
+//@loop 1
+            invariant
+                it.seq().len() == z@.len(), (forall|i: int| 0 <= i < z@.len() ==> *(#[trigger] it.seq()[i]) == z@[i]), z@ == old(z)@,
+                beta == fold_pos(z@, it.index@ as int),
+//@end
+//@fn file=src/solver/core/cones/nonnegativecone.rs in="Cone<T> for NonnegativeCone<T>" name=scaled_unit_shift rules=R1,R2 params=z,alpha,pd
+//@contract
+    ensures
+        final(z)@.len() == old(z)@.len(), forall|i: int| 0 <= i < old(z)@.len() ==> #[trigger] final(z)@[i] == f_add(old(z)@[i], alpha),
+//@end
+}
+pub open spec fn fold_pos(a: Seq<F>, k: int) -> F decreases k { if k <= 0 { f_zero() } else { f_add(fold_pos(a, k - 1), f_max(a[k - 1], f_zero())) } }
+
 } // verus!
 fn main() {}
